@@ -3,7 +3,7 @@
 namespace mm {
 bool build_group_s1(const Spec& s, XVisitor& v) {
   S_GROUP_HEAD
-  S_PA("sq", SquareEngine<ROW_MAJOR>, 3) S_P("sqc", SquareEngine<COL_MAJOR>, 0)
+  S_PA("sq", SquareEngine<ROW_MAJOR>, 3, 3) S_PA("sqc", SquareEngine<COL_MAJOR>, 0, 0)
   return false;
 }
 }
